@@ -12,6 +12,20 @@ from vlib import log
 #   teq: [{engine, quick:{args}, thorough:{args}, oracle: bool, mismatch_is_failure: bool, what: str}]
 # oracle=True: the harness also evaluates the property text directly on the implementation's
 #   answers (oracle.*.txt); a FAIL line is a concrete failing input.
+SEQ_WHAT = 'the real FeoxStore driven through every public call (all insert/get/delete/CAS/increment/insert-if-absent/JSON-patch/TTL/range calls, len, contains, get_size, flush, clean reopen) in 16 configurations (memory-only x {limit, no limit} x TTL; persistent x cache x TTL x v1/v2/v3), with the background flusher running, vs the reference map Model.Lww: every return value, memory_usage(), len() and a digest of (key, timestamp, expiry, length) of every live record after every call, full value dumps at random points, clock-shard values checked against the clock rules'
+
+
+def seq(extra_quick=None, extra_thorough=None, oracle=True):
+    q = {"n": 2, "ops": 70}
+    t = {"tier": "thorough"}
+    q.update(extra_quick or {})
+    t.update(extra_thorough or {})
+    return {"engine": "seq", "quick": q, "thorough": t, "oracle": oracle, "mismatch_is_failure": True, "timeout": 3400,
+            "nontrivial": lambda case, res: res.count(" | ") >= 20 and "true" in res,
+            "distinct_key": lambda case, res: res,
+            "what": SEQ_WHAT}
+
+
 # mismatch_is_failure=True: the model's answer is what the property dictates (the model is the
 #   reference map/codec by theorem), so a disagreeing case is itself the failing input.
 REGISTRY = {
@@ -24,6 +38,36 @@ REGISTRY = {
         "nontrivial_rule": "a case is one op sequence on one device size; distinct = distinct (device, op sequence) by 64-bit hash; non-trivial = at least one call succeeded and at least one release was attempted (so the free set really changed and a release decision was compared)",
         "assumptions": ["BTreeMap is a sorted, key-unique map (by_start/by_size modelled as one sorted run list)",
                         "precondition of the theorems: 16 < device sectors and device bytes < 2^64 (validate_device_size)"],
+    },
+    "C01": {
+        "title": "sequential calls match a last-writer-wins map on every storage tier",
+        "teq": [seq()],
+        "nontrivial_rule": "a case is one call sequence in one configuration; non-trivial = at least 20 calls compared and at least one write accepted; distinct by 64-bit hash of the whole result line; cases the model cannot decide (a wall-clock comparison inside the observation window) are counted separately as undecided and skipped",
+        "assumptions": ["wall clock is monotone within a call's observation window [tb, ta]", "JSON patch results are computed by the crate's own apply_json_patch on the harness's shadow of the last written value (serde_json/json-patch are not modelled)", "the reference map is tier-free by construction: agreement in persistent configurations with flush/reopen is what shows tier independence of the implementation"],
+    },
+    "C11": {
+        "title": "expiry is exact",
+        "teq": [seq({"seedoff": 11})],
+        "nontrivial_rule": "as C01; expiries are generated at least one hour before or after the wall clock so visibility is decidable; TTL-on configurations carry the expiry clauses",
+        "assumptions": ["the 1 ns boundary of the real clock is not decidable by this check (the model fixes > vs >=; comparisons inside the observation window are reported undecided)", "sweeper interleavings and crash points inside recovery are not part of this check (C04/C07 machinery)"],
+    },
+    "C12": {
+        "title": "automatic versions strictly increase per key",
+        "teq": [seq({"seedoff": 12}), seq({"extreme": 1, "n": 1, "ops": 60, "seedoff": 112}, {"extreme": 1})],
+        "nontrivial_rule": "as C01; the second stream adds explicit timestamps 2^64-2 and 2^64-1 and the directed replay of known finding F2; an implementation-side oracle flags every automatically timestamped call answered OlderTimestamp on a key the application did not pin at the maximum",
+        "assumptions": ["clock shard index and value are read through hook H4 after every call"],
+    },
+    "C13": {
+        "title": "memory accounting is exact",
+        "teq": [seq({"seedoff": 13})],
+        "nontrivial_rule": "as C01; memory_usage() and len() are compared after every call; two of the four memory-only configurations run under a limit that admits only some writes",
+        "assumptions": ["size_of::<Record>() is read through hook H4", "the concurrent clause (no interleaving exceeds the limit) is not decided by this check"],
+    },
+    "C14": {
+        "title": "range queries",
+        "teq": [seq({"seedoff": 14})],
+        "nontrivial_rule": "as C01; range queries with empty/extreme/inverted bounds, prefixes and limits 0,1,2,1000 are part of every sequence",
+        "assumptions": ["crossbeam_skiplist::SkipMap iteration is modelled as the sorted binding list", "the concurrent clauses are not decided by this check"],
     },
     "C10": {
         "title": "documented v1/v2/v3 layout",
@@ -141,9 +185,9 @@ def run_property(pid, eng, tier, seed, t0):
     concrete = []
     if rok and hok:
         for t in eng["teq"]:
-            outdir = os.path.join(vlib.BUILD, "cases", pid, t["engine"])
+            outdir = os.path.join(vlib.BUILD, "cases", pid, "%s-%d" % (t["engine"], eng["teq"].index(t)))
             args = dict(t.get(tier, t.get("quick", {})))
-            args["seed"] = seed
+            args["seed"] = seed + int(args.pop("seedoff", 0))
             t1 = time.time()
             try:
                 rc, so, se = vlib.run_harness(t["engine"], outdir, args, timeout=t.get("timeout", 3000))
@@ -171,7 +215,7 @@ def run_property(pid, eng, tier, seed, t0):
                 import shutil
                 shutil.rmtree(os.path.join(outdir, "images"), ignore_errors=True)
             teq_reports.append({"engine": t["engine"], "what": t["what"], "cases": cmp_["total"],
-                                "mismatches": cmp_["nmismatch"], "oracle_failures": nfail,
+                                "mismatches": cmp_["nmismatch"], "oracle_failures": nfail, "undecided_skipped": cmp_.get("undecided", 0),
                                 "wall_s": round(time.time() - t1, 1), "distribution": extra})
             # concrete failing inputs
             for f in fails:
@@ -235,7 +279,11 @@ def run_property(pid, eng, tier, seed, t0):
         rc, out = vlib.sh("timeout 1500 coqchk -silent -o -Q . Feox Feox.Properties.%s 2>&1 | tail -40" % pid, cwd=vlib.COQ, timeout=1600)
         coverage["coqchk"] = out[-3000:]
     vlib.write_evidence(pid, tier, seed, coverage, time.time() - t0, len(violations), eng.get("assumptions", []))
+    seen_known = set()
     for k in known:
+        if k.get("id") in seen_known:
+            continue
+        seen_known.add(k.get("id"))
         print("KNOWN-FINDING: property=%s %s" % (pid, k.get("what", k.get("id"))))
     for path, suffix in violations:
         print("VIOLATION property=%s replay=%s%s" % (pid, path, suffix))
